@@ -12,7 +12,7 @@ open Neutrino.CFHeaders
 #print axioms C03_honest_wins_counterexample_commits_false
 #print axioms genesis_inv
 #print axioms C03_detect_early_return
-#print axioms C03_honest_wins_counterexample_zero
+#print axioms C03_zero_hash_liar_caught
 #print axioms C03_honest_wins_partial
 #print axioms C03_checkpoint_batches
 #print axioms C03_checkpoints_tip_counterexample
